@@ -79,11 +79,28 @@ Theorem symlinked_location_refuted :
     trace_all h [(locs, p)] [] false = [3].
 Proof.
   exists ex_link_image, [2%N], 7%N. split; [discriminate|]. split; [reflexivity|]. split.
-  - intros i cont Hi. do 4 (destruct i as [|i]; [vm_compute; intros H; inversion H; reflexivity|]).
-    exfalso. cbn in Hi. repeat apply Nat.succ_lt_mono in Hi. inversion Hi.
+  - apply no_cancel_b. vm_compute. reflexivity.
   - vm_compute. repeat split.
 Qed.
 Print Assumptions symlinked_location_refuted.
+
+(* A second way out of D: a package with two locations.  ScanResult sorts every package's Locations
+   before PopulateLayerDetails runs, and the trace takes Locations[0] for the file the package was read
+   from.  Package 1 is read from file 2 (written by layer 1) and also names file 3; sorted, its
+   locations are [3; 2] (the harness's "c.list" < "pkgs/b.list"), so the trace re-reads file 3, never
+   finds the package there and lands on the last (empty) layer; the package's own file says layer 1. *)
+Definition ex_sorted_image : list clayer :=
+  [ mkCL 1 11 false [(2, LDelete); (3, LWrite [2; 1])]; mkCL 2 12 false [(2, LWrite [1]); (3, LWrite [2])];
+    mkCL 3 0 true [] ]%N.
+
+Theorem sorted_locations_refuted :
+  exists h locs src p,
+    In src locs /\ link_free h src = true /\ link_free h (primary locs) = true /\
+    present (lview h src) p (pred (length h)) = true /\
+    origin (lview h src) (length h) p = 1 /\
+    trace_all h [(locs, p)] [] false = [2].
+Proof. exists ex_sorted_image, [3; 2]%N, 2%N, 1%N. vm_compute. repeat split. right. left. reflexivity. Qed.
+Print Assumptions sorted_locations_refuted.
 
 (* removed and re-added: attributed to the re-adding layer c, whatever happened before *)
 Theorem readded_attributed_to_readder : forall vw n p c,
